@@ -428,4 +428,77 @@ example : ¬ realAst.Accepts "3".toList := by decide
 example : ¬ realAst.Accepts ".".toList := by decide
 example : ¬ realAst.Accepts "1.5.2".toList := by decide
 
+/-! ## uuid  (`Regex(r"[0-9a-fA-F]{8}(-[0-9a-fA-F]{4}){3}-[0-9a-fA-F]{12}")`) -/
+
+abbrev hxs : CSet := ⟨false, [.r '0' '9', .r 'a' 'f', .r 'A' 'F'], false⟩
+abbrev dashs : CSet := ⟨false, [.c '-'], false⟩
+
+theorem has_hxs (c : Char) : hxs.has c = true ↔ IsHexDigit c := by
+  simp [CSet.has, Item.has, IsHexDigit]
+
+theorem takeN_append (C : Char → Bool) (n : Nat) (w e : List Char) (hl : w.length = n)
+    (hw : ∀ c ∈ w, C c = true) : takeN C n (w ++ e) = some e :=
+  (takeN_some C n _ e).2 ⟨w, rfl, hl, hw⟩
+
+/-- one `-xxxx` group -/
+def dashHex (n : Nat) (s : List Char) : Option (List Char) := (expect dashs.has s).bind (takeN hxs.has n)
+
+theorem dashHex_progress (n : Nat) (s e : List Char) (h : dashHex n s = some e) : e.length < s.length := by
+  unfold dashHex at h
+  rw [Option.bind_eq_some_iff] at h
+  obtain ⟨t, h1, h2⟩ := h
+  obtain ⟨c, rfl, _⟩ := (expect_some _ _ _).1 h1
+  have := takeN_length _ _ _ _ h2
+  simp; omega
+
+theorem dashHex_some (n : Nat) (s e : List Char) :
+    dashHex n s = some e ↔ ∃ w, s = '-' :: (w ++ e) ∧ w.length = n ∧ ∀ c ∈ w, IsHexDigit c := by
+  unfold dashHex
+  rw [Option.bind_eq_some_iff]
+  constructor
+  · rintro ⟨t, h1, h2⟩
+    obtain ⟨c, rfl, hc⟩ := (expect_some _ _ _).1 h1
+    obtain ⟨w, rfl, hl, hw⟩ := (takeN_some _ _ _ _).1 h2
+    have : c = '-' := (has_lit '-' c).1 hc
+    subst this
+    exact ⟨w, rfl, hl, fun x hx => (has_hxs x).1 (hw x hx)⟩
+  · rintro ⟨w, rfl, hl, hw⟩
+    refine ⟨w ++ e, ?_, takeN_append _ _ _ _ hl (fun x hx => (has_hxs x).2 (hw x hx))⟩
+    simp [expect, CSet.has, Item.has]
+
+def uuidFn (s : List Char) : Option (List Char) :=
+  (takeN hxs.has 8 s).bind (fun e => (iter (dashHex 4) 3 e).bind (fun e => dashHex 12 e))
+
+theorem uuid_det : Det uuidAst uuidFn := by
+  unfold uuidAst seqs hx cls lit
+  exact det_seq (det_exact_set hxs 8)
+    (det_seq (det_exact (det_grp 1 (det_seq (det_set dashs) (det_exact_set hxs 4))) (dashHex_progress 4) true 3)
+      (det_seq (det_set dashs) (det_exact_set hxs 12)))
+
+/-- documented syntax: `xxxxxxxx-xxxx-xxxx-xxxx-xxxxxxxxxxxx`, hexadecimal digits in groups of 8-4-4-4-12 -/
+def IsUuid (s : List Char) : Prop :=
+  ∃ a b c d e, s = a ++ '-' :: (b ++ '-' :: (c ++ '-' :: (d ++ '-' :: e))) ∧
+    a.length = 8 ∧ b.length = 4 ∧ c.length = 4 ∧ d.length = 4 ∧ e.length = 12 ∧
+    (∀ x ∈ a, IsHexDigit x) ∧ (∀ x ∈ b, IsHexDigit x) ∧ (∀ x ∈ c, IsHexDigit x) ∧ (∀ x ∈ d, IsHexDigit x) ∧
+    (∀ x ∈ e, IsHexDigit x)
+
+theorem uuid_language (s : List Char) : uuidAst.Accepts s ↔ IsUuid s := by
+  rw [det_accepts uuid_det]
+  unfold uuidFn
+  simp only [iter, Option.bind_eq_some_iff, dashHex_some, takeN_some, Option.some.injEq]
+  constructor
+  · rintro ⟨e1, ⟨a, rfl, ha, haw⟩, e4, ⟨e2, ⟨b, rfl, hb, hbw⟩, e3, ⟨c, rfl, hc, hcw⟩, e4', ⟨d, rfl, hd, hdw⟩, rfl⟩,
+      e, he, hel, hew⟩
+    simp only [List.append_nil] at he
+    subst he
+    exact ⟨a, b, c, d, e, rfl, ha, hb, hc, hd, hel, fun x hx => (has_hxs x).1 (haw x hx), hbw, hcw, hdw, hew⟩
+  · rintro ⟨a, b, c, d, e, rfl, ha, hb, hc, hd, he, haw, hbw, hcw, hdw, hew⟩
+    refine ⟨_, ⟨a, rfl, ha, fun x hx => (has_hxs x).2 (haw x hx)⟩, _, ⟨_, ⟨b, rfl, hb, hbw⟩, _, ⟨c, rfl, hc, hcw⟩, _,
+      ⟨d, rfl, hd, hdw⟩, rfl⟩, e, by simp, he, hew⟩
+
+example : uuidAst.Accepts "12345678-1234-5678-1234-567812345678".toList := by decide
+example : uuidAst.Accepts "ABCDEF12-abcd-5678-1234-567812345678".toList := by decide
+example : ¬ uuidAst.Accepts "12345678-1234-5678-1234-56781234567".toList := by decide
+example : ¬ uuidAst.Accepts "1234567g-1234-5678-1234-567812345678".toList := by decide
+
 end PP.C18
